@@ -127,10 +127,10 @@ theorem goodComp_valid_append {id : Bytes} (h : validateID id = true) (suf : Byt
   refine ⟨?_, ?_, ?_, ?_⟩
   · intro e
     have := congrArg List.length e
-    simp at this; omega
+    simp only [List.length_append, List.length_cons, List.length_nil] at this; omega
   · intro e
     have := congrArg List.length e
-    simp at this; omega
+    simp only [List.length_append, List.length_cons, List.length_nil] at this; omega
   · intro e
     have := congrArg List.length e
     simp only [dd, List.length_append, List.length_cons, List.length_nil] at this; omega
@@ -147,5 +147,22 @@ theorem splitSlash_noslash_eq (p : Bytes) (h : slash ∉ p) : splitSlash p = [p]
     have hr : slash ∉ r := fun hm => h (List.mem_cons_of_mem _ hm)
     unfold splitSlash
     rw [if_neg hc, ih hr]
+
+/-- decidable form of `GoodComp` -/
+def goodCompB (c : Bytes) : Bool := decide (c ≠ []) && decide (c ≠ [dot]) && decide (c ≠ dd) && !c.contains slash
+
+theorem goodCompB_sound {c : Bytes} (h : goodCompB c = true) : GoodComp c := by
+  simp only [goodCompB, Bool.and_eq_true, decide_eq_true_eq, Bool.not_eq_true', List.contains_eq_mem,
+    decide_eq_false_iff_not] at h
+  exact ⟨h.1.1.1, h.1.1.2, h.1.2, h.2⟩
+
+theorem splitSlash_all_good {p : Bytes} (h : (splitSlash p).all goodCompB = true) : ∀ comp ∈ splitSlash p, GoodComp comp := by
+  intro comp hc
+  exact goodCompB_sound (List.all_eq_true.mp h comp hc)
+
+/-- the key store's own file names consist of ordinary components -/
+theorem global_names_good :
+    ([logKey, logKey ++ sPub, poisonKey, poisonKey ++ sPub, poisonSym, poisonSym ++ sPub].all
+      fun f => (splitSlash f).all goodCompB) = true := by decide
 
 end AcraModel.KeystoreSec.V1
